@@ -41,6 +41,8 @@ def mk_value(s):
         return bool(s["v"])
     if t == "int":
         return int(s["v"])
+    if t == "bigint":
+        return (-1 if s["neg"] else 1) * 10 ** s["exp"]
     if t == "float":
         return float(s["v"])
     if t == "str":
@@ -48,9 +50,9 @@ def mk_value(s):
     if t == "bytes":
         return s["v"].encode()
     if t == "list":
-        return list(range(s["n"]))
+        return list(s["items"]) if "items" in s else list(range(s["n"]))
     if t == "tuple":
-        return tuple(range(s["n"]))
+        return tuple(s["items"]) if "items" in s else tuple(range(s["n"]))
     if t == "dict":
         return {i: i for i in range(s["n"])}
     if t == "obj":
